@@ -8,6 +8,8 @@ package client
 import (
 	"sync/atomic"
 	"time"
+
+	"google.golang.org/grpc"
 )
 
 // VerifTabEntry is one entry of a batchCommandsClient.batched table.
@@ -206,4 +208,19 @@ func VerifFireIdleTimer(c *RPCClient, addr string, d time.Duration) bool {
 	}
 	pool.batchConn.idleDetect.Reset(d)
 	return true
+}
+
+// VerifPoolHasConn tells whether cc is one of the gRPC connections of the pool behind the handle (so that the events of
+// a stream can be attributed to the right GENERATION of the pool of an address after CloseAddr re-created it).
+func VerifPoolHasConn(h interface{}, cc *grpc.ClientConn) bool {
+	p, ok := h.(*connPool)
+	if !ok || p == nil {
+		return false
+	}
+	for _, c := range p.conns {
+		if c != nil && c.ClientConn == cc {
+			return true
+		}
+	}
+	return false
 }
